@@ -7,6 +7,7 @@ import (
 	"io"
 	"io/ioutil"
 	"os"
+	"strconv"
 	"strings"
 	"sync"
 
@@ -226,7 +227,7 @@ func init() {
 		input := []byte(arg(a, 1))
 		// oracle answers, straight from the library
 		oracle := "nodecode"
-		if block, _ := clearsign.Decode(input); block != nil {
+		if block, rest := clearsign.Decode(input); block != nil {
 			signer := "-"
 			if kr != nil {
 				// "the signature verifies": the armored signature block, read to its end (armor checksum included),
@@ -237,7 +238,7 @@ func init() {
 					}
 				}
 			}
-			oracle = "decoded " + hx(string(block.Bytes)) + " " + signer
+			oracle = "decoded " + hx(string(block.Bytes)) + " " + signer + " " + strconv.Itoa(len(rest))
 		}
 		// the code under test
 		impl := ""
